@@ -82,7 +82,8 @@ def check_output(v, case, lazy_p, eager_p, llog, elog, out, K, ctx, use_dag, pre
     except Exception as e:  # noqa: BLE001
         bad(exc_sig(e, "evaluate"), f"evaluate()/eager call raised: {exc_msg(e)}", **w)
         return
-    norm = lambda x: tuple(x) if isinstance(x, (list, tuple)) else x  # noqa: E731
+    norm = lambda x: (tuple(x) if isinstance(x, (list, tuple)) else  # noqa: E731
+                      tuple(x.get(n) for n in out) if isinstance(x, dict) and isinstance(out, tuple) else x)
     if norm(got) != norm(exp["value"]) or norm(got) != norm(eager):
         bad("value", f"evaluate()={got!r:.200} eager={eager!r:.200} reference={exp['value']!r:.200}", **w)
     if norm(got2) != norm(got) or norm(got3) != norm(got):
@@ -228,7 +229,7 @@ def run_case(desc):
     keys, sample = [], None
     with tmpdir("c18-") as scratch:
         for i in range(desc["start"], desc["start"] + desc["n"]):
-            case = daggen.case_from_seed(desc["seed"], i, p_falsy=0.15 if i % 2 else 0.0)
+            case = daggen.case_from_seed(desc["seed"], i, p_falsy=0.15 if i % 2 else 0.0, p_picker=0.5 if i % 3 == 2 else 0.0)
             rng = random.Random(f"c18:{desc['seed']}:{i}")
             llog, elog = probes.new_log(scratch, "lazy"), probes.new_log(scratch, "eager")
             try:
